@@ -203,6 +203,11 @@ def judge(obs, part, replay):
     injected = cfg.get('task_raises') is not None or cfg.get('source_raises_at') is not None
     raised = any(ev[0] in ('task_raise', 'source_raise') for ev in log)
     stop = state['stop_requested_at'] is not None
+    if not obs['main_done'] and not raised and not stop and state['conc'] == 0 and (cfg.get('changes') or [1])[-1] == 0:
+        # paused and never resumed, nothing failed: process() legitimately waits (only generated together with an injected
+        # failure that did not happen in this schedule because its item was never started)
+        part.count('paused_forever_without_failure')
+        return
     if not obs['main_done']:
         # quiescent loop, process() not returned: deterministic hang witness
         if raised:
@@ -302,8 +307,11 @@ def gen_cfg(rng, small):
     if rng.random() < 0.4:
         n = rng.choice([1, 2, 3])
         ch = [rng.choice([0, 1, 2, 3, 4]) for _ in range(n)]
-        if ch[-1] == 0:
-            ch.append(rng.choice([1, 2]))
+        if ch[-1] == 0 and not (cfg.get('task_raises') or cfg.get('source_raises_at') is not None) or rng.random() < 0.5:
+            # a pause is normally lifted again; with an injected failure it may also stay (the failure of an item in
+            # flight must surface although the pipeline is paused)
+            if ch[-1] == 0:
+                ch.append(rng.choice([1, 2]))
         cfg['changes'] = ch
     return cfg
 
@@ -325,6 +333,9 @@ DIRECTED = [
     {'items': 3, 'tasks': 1, 'conc': 1, 'dynamic': 1, 'changes': [2, 3]},
     {'items': 4, 'tasks': 1, 'conc': 2, 'dynamic': 2, 'changes': [3, 2], 'stop': True},
     {'items': 0, 'tasks': 1, 'conc': 2, 'stop': True},
+    {'items': 2, 'tasks': 1, 'conc': 2, 'task_raises': [0, 1], 'changes': [0]},
+    {'items': 3, 'tasks': 2, 'conc': 3, 'task_raises': [1, 0], 'changes': [0]},
+    {'items': 2, 'tasks': 1, 'conc': 2, 'task_raises': [0, 0], 'changes': [1, 0]},
 ]
 
 
